@@ -20,7 +20,14 @@ ALL = ["C%02d" % i for i in range(1, 19)]
 
 
 def setup():
-    ok, out = vlib.lean_build()
+    import json
+    try:
+        claimed0 = [c["property_id"] for c in json.load(open(os.path.join(vlib.VERIF, "MANIFEST.json")))["checks"]]
+    except Exception:  # noqa: BLE001
+        claimed0 = ALL
+    targets = ["driver"] + ["Mustache.Props." + p for p in claimed0
+                            if os.path.exists(os.path.join(vlib.LEAN, "Mustache", "Props", p + ".lean"))]
+    ok, out = vlib.lean_build(targets)
     if not ok:
         print(out[-8000:])
         return 1
@@ -30,8 +37,13 @@ def setup():
     except vlib.BuildError as e:
         print("setup: build failed:", e.what, e.output[-3000:])
         return 1
-    # pre-build every harness a property module names
-    for p in ALL:
+    # pre-build every harness a CLAIMED property's module names (unfinished modules are not part of the setup)
+    import json
+    try:
+        claimed = [c["property_id"] for c in json.load(open(os.path.join(vlib.VERIF, "MANIFEST.json")))["checks"]]
+    except Exception:  # noqa: BLE001
+        claimed = ALL
+    for p in claimed:
         try:
             mod = importlib.import_module("props." + p.lower())
         except ImportError:
@@ -74,12 +86,24 @@ def main():
         except vlib.BuildError as e:
             prep_error = e
     # stage P: proofs (hand-written models: unchanged unless /verif changed; generated models: re-checked now)
-    try:
-        ctx.proof = vlib.lean_audit(a.prop, leanchecker=(tier == "thorough"))
-    except Exception as e:  # noqa: BLE001
-        ctx.proof = {"ok": False, "obligations": 0, "discharged": 0, "axioms": {}, "theorems": [],
-                     "problems": ["audit crashed: %r" % (e,)]}
-    proof_broken = not ctx.proof["ok"]
+    has_props = os.path.exists(os.path.join(vlib.LEAN, "Mustache", "Props", a.prop + ".lean"))
+    if has_props:
+        try:
+            ctx.proof = vlib.lean_audit(a.prop, leanchecker=(tier == "thorough"))
+        except Exception as e:  # noqa: BLE001
+            ctx.proof = {"ok": False, "obligations": 0, "discharged": 0, "axioms": {}, "theorems": [],
+                         "problems": ["audit crashed: %r" % (e,)]}
+        proof_broken = not ctx.proof["ok"]
+    else:
+        # no theorem file yet: the check is the executable model + spec oracle only; level is not "proof"
+        ctx.proof = None
+        ctx.level = getattr(mod, "LEVEL_WITHOUT_PROOF", "other")
+        proof_broken = False
+        ok, out = vlib.lean_build(["driver"])
+        if not ok:
+            proof_broken = True
+            ctx.proof = {"ok": False, "obligations": 0, "discharged": 0, "axioms": {}, "theorems": [],
+                         "problems": ["lake build driver failed:\n" + out[-3000:]]}
 
     # stages B/T/O/K/S: property module
     try:
@@ -96,7 +120,7 @@ def main():
 
     if proof_broken and not any(not ni for (_, _, ni) in ctx.violations):
         ctx.violation("stage=proof\n" + "\n".join(ctx.proof["problems"]),
-                      "proof obligations of Props/%s.lean no longer check: %s"
+                      "proof obligations of Props/%s.lean (or the model build) no longer check: %s"
                       % (a.prop, "; ".join(p.splitlines()[0] for p in ctx.proof["problems"])),
                       no_input=True, suffix="txt")
 
@@ -109,8 +133,9 @@ def main():
     for (p, msg, ni) in shown[:5]:
         print("VIOLATION property=%s replay=%s%s" % (a.prop, p, " no-failing-input-found" if ni else ""))
     if not shown:
+        pr = ctx.proof or {"discharged": 0, "obligations": 0}
         print("OK property=%s tier=%s seed=%d theorems=%d/%d evaluations=%s wall=%.1fs"
-              % (a.prop, tier, seed, ctx.proof["discharged"], ctx.proof["obligations"],
+              % (a.prop, tier, seed, pr["discharged"], pr["obligations"],
                  ctx.coverage.get("evaluations"), __import__("time").time() - ctx.t0))
     return 1 if shown else 0
 
